@@ -5,7 +5,7 @@
    `write_reset` and the REPAIRED lp_variable_order_reverse; the pinned behaviours and their refutations are in
    History_C18.v).  Reference side: MPoly.v. *)
 From Coq Require Import ZArith NArith List Bool Permutation.
-From LP Require Import MPoly VarOrder VarOrderMPoly VarOrderProofs VarOrderDen VarOrderWf VarOrderHist.
+From LP Require Import MPoly VarOrder VarOrderMPoly VarOrderProofs VarOrderDen VarOrderWf VarOrderNorm VarOrderHash VarOrderUniq VarOrderHist VarOrderInv History_C18.
 Import ListNotations.
 Local Open Scope Z_scope.
 
@@ -125,3 +125,110 @@ Theorem C18_order_change_keeps_denotations : forall hz hp wr, (forall p d, pdata
   order_or_observation e = true -> dens (fst (step hz hp wr s e)) = dens s.
 Proof. exact order_change_keeps_denotations. Qed.
 Print Assumptions C18_order_change_keeps_denotations.
+
+(* ------------------------------------------------------------------------------------------------ *)
+(* 5. the representation is canonical: the monomials a traversal reports are pairwise different; two objects in
+      order under the SAME order and in normal form that denote the same polynomial are the same tree; so the
+      structural comparison coefficient_cmp == 0 decides equality of the denoted polynomials *)
+Theorem C18_monomials_distinct : forall o c, in_order o c = true ->
+  NoDup (map (fun t => mono_canon (fst t)) (traverse c [])).
+Proof. exact (fun o c H => traverse_distinct o c (proj1 (in_order_iff o c) H)). Qed.
+Print Assumptions C18_monomials_distinct.
+
+Theorem C18_representation_unique : forall o c1 c2, good o c1 -> good o c2 -> to_mpoly c1 = to_mpoly c2 -> c1 = c2.
+Proof. exact good_unique_den. Qed.
+Print Assumptions C18_representation_unique.
+
+Theorem C18_cmp_decides_equality : forall o c1 c2, good o c1 -> good o c2 ->
+  (coef_cmp o c1 c2 = 0 <-> to_mpoly c1 = to_mpoly c2).
+Proof. exact coef_cmp_den. Qed.
+Print Assumptions C18_cmp_decides_equality.
+
+(* the normal form and the order invariant are re-established by re-ordering *)
+Theorem C18_reorder_good : forall o o' c, good o c -> good o' (coef_order o' c).
+Proof. exact (fun o o' c H => laid_out_reorder o' c (ex_intro _ o H)). Qed.
+Print Assumptions C18_reorder_good.
+
+(* ------------------------------------------------------------------------------------------------ *)
+(* 6. hashing.  For EVERY integer hash hz and pair hash hp: coefficient_hash is a function of the denoted
+      polynomial - objects laid out under any two orders that denote the same polynomial hash equally; in
+      particular re-ordering keeps the hash (commutativity / associativity of the XOR fold) *)
+Theorem C18_hash_order_independent : forall hz hp o1 o2 c1 c2, good o1 c1 -> good o2 c2 ->
+  to_mpoly c1 = to_mpoly c2 -> coef_hash hz hp c1 = coef_hash hz hp c2.
+Proof. exact (fun hz hp o1 o2 c1 c2 H1 H2 => coef_hash_denotation hz hp o1 o2 c1 c2 (proj1 H1) (proj2 H1) (proj1 H2) (proj2 H2)). Qed.
+Print Assumptions C18_hash_order_independent.
+
+Theorem C18_hash_reorder : forall hz hp o o' c, good o c -> coef_hash hz hp (coef_order o' c) = coef_hash hz hp c.
+Proof. exact (fun hz hp o o' c H => coef_hash_coef_order hz hp o o' c (proj1 H) (proj2 H)). Qed.
+Print Assumptions C18_hash_reorder.
+
+Theorem C18_hash_of_denotation : forall hz hp o c, good o c -> is_zero c = false ->
+  coef_hash hz hp c = mp_hash hz hp (to_mpoly c).
+Proof. exact (fun hz hp o c H => coef_hash_mp_hash hz hp o c (proj1 H) (proj2 H)). Qed.
+Print Assumptions C18_hash_of_denotation.
+
+(* ------------------------------------------------------------------------------------------------ *)
+(* 7. invariants over ALL histories with the repaired cache discipline (every operation that writes an object
+      resets its cached hash).  REFUTED for the pinned discipline: History_C18.C18_hash_cache_inv_prefix_refuted,
+      C18_eq_prefix_refuted. *)
+Theorem C18_hash_cache_inv : forall hz hp h i,
+  cache_ok hz hp (get (run hz hp write_reset state0 h) i).
+Proof. exact history_cache_inv. Qed.
+Print Assumptions C18_hash_cache_inv.
+
+Theorem C18_history_objects_canonical : forall hz hp h i,
+  exists o0, good o0 (pdata (get (run hz hp write_reset state0 h) i)).
+Proof. exact history_laid_out. Qed.
+Print Assumptions C18_history_objects_canonical.
+
+(* lp_polynomial_eq answers exactly whether the two objects denote the same polynomial - whatever orders they
+   were created, hashed and mutated under *)
+Theorem C18_eq_correct : forall hz hp h i j,
+  let s := run hz hp write_reset state0 h in
+  enabled s (PEq i j) = true ->
+  (snd (step hz hp write_reset s (PEq i j)) = OBool true <-> nth i (dens s) [] = nth j (dens s) []) /\
+  (snd (step hz hp write_reset s (PEq i j)) = OBool false <-> nth i (dens s) [] <> nth j (dens s) []).
+Proof. exact history_eq_correct. Qed.
+Print Assumptions C18_eq_correct.
+
+Theorem C18_cmp_correct : forall hz hp h i j,
+  let s := run hz hp write_reset state0 h in
+  enabled s (PCmp i j) = true ->
+  (snd (step hz hp write_reset s (PCmp i j)) = OBool true <-> nth i (dens s) [] = nth j (dens s) []).
+Proof. exact history_cmp_correct. Qed.
+Print Assumptions C18_cmp_correct.
+
+(* equal polynomials hash equally in every reachable state *)
+Theorem C18_hash_equal : forall hz hp h i j,
+  let s := run hz hp write_reset state0 h in
+  nth i (dens s) [] = nth j (dens s) [] ->
+  fst (poly_hash hz hp (get s i)) = fst (poly_hash hz hp (get s j)).
+Proof. exact history_hash_equal. Qed.
+Print Assumptions C18_hash_equal.
+
+(* ------------------------------------------------------------------------------------------------ *)
+(* non-vacuity: the hypotheses of the theorems above are satisfiable, on the corpus witness and on a history that
+   changes the order between building two equal polynomials along different routes *)
+Definition ex_o01 : order := order_push (order_push order_new 0%N) 1%N.
+Definition ex_p : list (pmono * Z) := [([(0%N, 2%N); (1%N, 1%N)], 3); ([(1%N, 1%N)], -2); ([], 5); ([(2%N, 1%N)], 1)].
+Example ex_plain_nodup : plain ex_o01 /\ NoDup (olist ex_o01).
+Proof. split; [split; reflexivity|repeat constructor; cbn; intuition discriminate]. Qed.
+Example ex_in_order : in_order ex_o01 (of_mpoly ex_o01 ex_p) = true /\ in_order (order_reverse ex_o01) (of_mpoly ex_o01 ex_p) = false.
+Proof. vm_compute. split; reflexivity. Qed.
+Example ex_reorder : in_order (order_reverse ex_o01) (coef_order (order_reverse ex_o01) (of_mpoly ex_o01 ex_p)) = true
+  /\ coef_order (order_reverse ex_o01) (of_mpoly ex_o01 ex_p) <> of_mpoly ex_o01 ex_p.
+Proof. split; [vm_compute; reflexivity|vm_compute; discriminate]. Qed.
+Example ex_good : good ex_o01 (of_mpoly ex_o01 ex_p).
+Proof. split; [apply of_mpoly_wf; repeat constructor; cbn; intuition discriminate|apply of_mpoly_norm]. Qed.
+(* x0*x1 + x2 built under [x0,x1]; the order is reversed and x3 pushed; (x1*x0) + x2 built again by multiplication
+   and addition into an external object; the two are compared *)
+Definition ex_history : list op :=
+  [OPush 0%N; OPush 1%N; PNew [([(0%N, 1%N); (1%N, 1%N)], 1); ([(2%N, 1%N)], 1)]; PSetExt 0; PHash 0;
+   OReverse; OPush 3%N;
+   PNew [([(1%N, 1%N)], 1)]; PNew [([(0%N, 1%N)], 1)]; PNew [([(2%N, 1%N)], 1)];
+   PBin (fun _ a b => mp_mul a b) 1 1 2; PBin (fun _ a b => mp_add a b) 1 3 1; PAddMono 0 [(3%N, 2%N)] 4; PAddMono 1 [(3%N, 2%N)] 4].
+Example ex_history_enabled :
+  let s := run hz0 hp0 write_reset state0 ex_history in
+  enabled s (PEq 0 1) = true /\ nth 0 (dens s) [] = nth 1 (dens s) [] /\ nth 0 (dens s) [] <> [] /\
+  snd (step hz0 hp0 write_reset s (PEq 0 1)) = OBool true /\ sord s = mkOrder [1%N; 0%N; 3%N] None None.
+Proof. vm_compute. repeat split. discriminate. Qed.
